@@ -122,22 +122,33 @@ impl Dag {
     // By default, all nodes are false, and calling this is required to make a
     // subtree visible during graph traversals.
     pub fn set_subtree_visibility(&mut self, node: usize, visible: bool) -> Result<(), GraphError> {
-        let mut work: VecDeque<usize> = VecDeque::new();
+        // Depth-first walk. `active` holds the nodes on the path from `node` to the node
+        // currently being expanded, so reaching one of them again means the graph has a
+        // cycle; a node that is merely reachable along several paths (a diamond) is found
+        // in `visited` instead and is not an error.
         let mut visited = HashSet::new();
         let mut active = HashSet::new();
-        work.push_front(node);
-        while let Some(n) = work.pop_front() {
-            self.visibility[n] = visible;
-            visited.insert(n);
-            active.remove(&n);
-            for &depn in &self.adj_list[n] {
-                if active.contains(&depn) {
-                    let label = self.get_label_by_node(&depn)?;
-                    return Err(GraphError::Cycle(depn, label.to_owned()));
+        // (node, index of its next dependency to look at)
+        let mut work: Vec<(usize, usize)> = vec![(node, 0)];
+        self.visibility[node] = visible;
+        visited.insert(node);
+        active.insert(node);
+        while let Some((n, i)) = work.pop() {
+            match self.adj_list[n].get(i).copied() {
+                Some(depn) => {
+                    work.push((n, i + 1));
+                    if active.contains(&depn) {
+                        let label = self.get_label_by_node(&depn)?;
+                        return Err(GraphError::Cycle(depn, label.to_owned()));
+                    }
+                    if visited.insert(depn) {
+                        self.visibility[depn] = visible;
+                        active.insert(depn);
+                        work.push((depn, 0));
+                    }
                 }
-                if !visited.contains(&depn) {
-                    work.push_back(depn);
-                    active.insert(depn);
+                None => {
+                    active.remove(&n);
                 }
             }
         }
